@@ -913,6 +913,128 @@ def slot_cases(ctx, terms, descr):
         descr.append({'coord': [x, y, z], 'bundle': rel, 'offset': list(off), 'v1_index_offset': o1, 'v2_index_offset': o2})
 
 
+# ----------------------------------------------------------------------------- calls through a re-used Tile object
+
+OBJ_DEFS = '''
+Definition mkd (d : list (list Z * list Z)) : dims := map (fun kv => (tx (fst kv), tx (snd kv))) d.
+Definition tobs_eqb (a b : tobs) : bool :=
+  let '(r1, l1, s1, f1) := a in let '(r2, l2, s2, f2) := b in
+  opt_eqb Bool.eqb r1 r2 && opt_eqb path_eqb l1 l2 && opt_eqb bytes_eqb s1 s2 && Bool.eqb f1 f2.
+Definition mkobs (r : option bool) (l : option (list (list Z))) (s : option bytes) (f : bool) : tobs :=
+  (r, match l with Some p => Some (map tx p) | None => None end, s, f).
+'''
+
+
+def object_cases(ctx, pay, terms, descr):
+    """One Tile object is passed to several cache calls with varying dimensions (FileCache keeps tile.location,
+    tile.source and tile.stored on the object)."""
+    from mapproxy.cache.file import FileCache
+    from mapproxy.cache.tile import Tile
+    from mapproxy.image import ImageSource
+    import shutil
+    rng = ctx.rng
+    n = ctx.n(60, 600)
+    for i in range(n):
+        layout = rng.choice(['tc', 'mp', 'tms', 'reverse_tms', 'arcgis'])
+        link = rng.choice(LINKS)
+        cfg = {'kind': 'file', 'layout': layout, 'link': link}
+        x, y, z = rng.choice(COORD_EDGE[:20]), rng.choice(COORD_EDGE[:20]), rng.choice([0, 1, 3, 12])
+        dimsets = [(), (('time', 'a'),), (('time', 'b'),), (('time', 'a/b'),)]
+        pre = []
+        for d in dimsets:
+            if rng.random() < 0.4:
+                pre.append(('store', (x, y, z, d), rng.randrange(pay.n)))
+        calls = []
+        for _ in range(rng.choice([2, 3, 4, 6])):
+            d = rng.choice(dimsets)
+            r = rng.random()
+            if r < 0.3:
+                calls.append(('load', d))
+            elif r < 0.5:
+                calls.append(('cached', d))
+            elif r < 0.85:
+                calls.append(('store', d, rng.randrange(pay.n_mono) if (link != 'none' and rng.random() < 0.5)
+                              else rng.randrange(pay.n)))
+            else:
+                calls.append(('remove', d))
+        post = [('load', (x, y, z, d)) for d in dimsets]
+        cdir = ctx.tmpdir('obj')
+        cache = make_backend(cfg, cdir)
+        obs = []
+        try:
+            for op in pre:
+                run_op(pay, cache, op)
+            t = Tile((x, y, z))
+            for c in calls:
+                try:
+                    if c[0] == 'load':
+                        ret = bool(cache.load_tile(t, dimensions=dims_arg(c[1])))
+                    elif c[0] == 'cached':
+                        ret = bool(cache.is_cached(t, dimensions=dims_arg(c[1])))
+                    elif c[0] == 'store':
+                        t.source = ImageSource(BytesIO(pay.png[c[2]]))
+                        cache.store_tile(t, dimensions=dims_arg(c[1]))
+                        ret = None
+                    else:
+                        cache.remove_tile(t, dimensions=dims_arg(c[1]))
+                        ret = None
+                    loc = t.location
+                    if loc is not None:
+                        loc = os.path.relpath(loc, cdir).split(os.sep)
+                    src = None
+                    if t.source is not None:
+                        buf = t.source.as_buffer()
+                        buf.seek(0)
+                        src = pay.decode(buf.read())
+                        buf.seek(0)
+                    obs.append([ret, loc, src, bool(t.stored)])
+                except Exception as e:  # noqa
+                    obs.append(['raised', type(e).__name__])
+            outs = [run_op(pay, cache, op) for op in post]
+        finally:
+            shutil.rmtree(cdir, ignore_errors=True)
+        ctx.case(('obj', layout, link, x, y, z, repr(pre), repr(calls)), len(set(c[1] for c in calls)) > 1)
+        ctx.count('tile-object/' + layout)
+        # oracle: the object acts on the address fixed by its first call that needed the location
+        first = None
+        for c, o in zip(calls, obs):
+            if first is None and o[0] != 'raised' and o[1] is not None:
+                first = c[1]
+        if layout != 'arcgis' and first is not None:
+            try:
+                want = FileCache('/CD', 'png', directory_layout=layout).tile_location(Tile((x, y, z)), dimensions=dims_arg(first))
+                want = os.path.relpath(want, '/CD').split(os.sep)
+            except Exception:  # noqa
+                want = None
+            bad = [o for o in obs if o[0] != 'raised' and o[1] is not None and o[1] != want]
+            if bad:
+                ctx.fail('file,tile-object,location-changed', 'tile.location of a re-used Tile object changed: %r' % (bad[0],),
+                         {'backend': cfg, 'coord': [x, y, z], 'pre': pre, 'calls': calls, 'observed': obs})
+
+        def olit(o):
+            if o[0] == 'raised':
+                return '(mkobs (Some true) None None true)' if False else '(mkobs None None (Some [(-7)]) false)'
+            ret = 'None' if o[0] is None else '(Some %s)' % blit(o[0])
+            loc = 'None' if o[1] is None else '(Some [%s])' % '; '.join(codes(p) for p in o[1])
+            return '(mkobs %s %s %s %s)' % (ret, loc, obytes_lit(o[2]), blit(o[3]))
+
+        def clit(c):
+            if c[0] == 'load':
+                return '(TLoad (mkd %s))' % dims_lit(c[1])
+            if c[0] == 'cached':
+                return '(TCached (mkd %s))' % dims_lit(c[1])
+            if c[0] == 'store':
+                return '(TStore (mkd %s) %s)' % (dims_lit(c[1]), pl_lit(pay, c[2]))
+            return '(TRemove (mkd %s))' % dims_lit(c[1])
+        link_l = {'none': 'LNone', 'symlink': 'LSym', 'hardlink': 'LHard'}[link]
+        terms.append('(%s, %s, [%s], (%s, %s, %s), [%s], [%s], [%s], [%s])' % (
+            slit(layout), link_l, '; '.join(op_lit(pay, o) for o in pre), zlit(x), zlit(y), zlit(z),
+            '; '.join(clit(c) for c in calls), '; '.join(op_lit(pay, o) for o in post),
+            '; '.join(olit(o) for o in obs), '; '.join(out_lit(o) for o in outs)))
+        descr.append({'backend': cfg, 'coord': [x, y, z], 'pre': pre, 'calls_on_one_tile_object': calls, 'post': post,
+                      'observed_after_each_call(ret, location, source, stored)': obs, 'post_outputs': outs})
+
+
 # ----------------------------------------------------------------------------- tile manager on a dimension cache
 
 TM_COLORS = {'A': (0, 0, 255), 'B': (0, 255, 0), None: (255, 0, 0)}
@@ -1179,6 +1301,15 @@ def run(ctx):
                    lambda i: bdescr[i], shard=1, defs=DEFS)
 
     tilemanager_cases(ctx, pay)
+
+    oterms, odescr = [], []
+    object_cases(ctx, pay, oterms, odescr)
+    ctx.corr_check('tile_objects', IMPORTS,
+                   'string * link_mode * list op * (Z * Z * Z) * list tcall * list op * list tobs * list out', oterms,
+                   "fun c => let '(lay, link, pre, xyz, cs, post, obs, outs) := c in let '(x, y, z) := xyz in "
+                   "let r := object_case lay link pre x y z cs post in "
+                   "list_eqb tobs_eqb (fst r) obs && outs_eqb (snd r) outs",
+                   lambda i: odescr[i], shard=40, defs=DEFS + OBJ_DEFS)
 
     pterms, pdescr = [], []
     path_cases(ctx, pterms, pdescr)
